@@ -173,7 +173,7 @@ func NewOEngine(p *Prog, cfg OConfig) *OEngine {
 	e := &OEngine{P: p, Cfg: cfg, Sums: map[*ssa.Function]*OSummary{}, callees: map[ssa.CallInstruction][]*ssa.Function{},
 		Unknown: map[string]token.Pos{}, UserCallbacks: map[string]token.Pos{}, UsedExt: map[string]bool{}, Vals: map[*ssa.Function]map[ssa.Value]apset{}}
 	for _, pk := range p.AllPkgs {
-		if strings.HasPrefix(pk.PkgPath, modPath) {
+		if strings.HasPrefix(pk.PkgPath, modPath) || analysedDeps[pk.PkgPath] {
 			e.fns = append(e.fns, pkgFunctions(p, pk.PkgPath)...)
 		}
 	}
@@ -194,6 +194,15 @@ func NewOEngine(p *Prog, cfg OConfig) *OEngine {
 		}
 	}
 	return e
+}
+
+// analysedDeps: dependency packages whose functions are summarised from their own source
+// instead of through the contracts table (their SSA is available: everything is loaded from
+// source). Kept to the data-handling packages go-bt passes its byte slices to.
+var analysedDeps = map[string]bool{
+	"bytes": true, "hash": true, "crypto/sha256": true, "crypto/sha1": true, "golang.org/x/crypto/ripemd160": true,
+	"encoding/binary": true, "encoding/hex": true,
+	"github.com/libsv/go-bk/crypto": true,
 }
 
 // sigCandidates: address-taken module functions (closures, function values) with an identical signature.
@@ -958,7 +967,7 @@ func (l *oLocal) applyExternal(ci ssa.CallInstruction, res *ssa.Call, callee *ss
 				}
 			}
 		}
-		if refArg {
+		if refArg && inScope(pkgPathOf(l.fn)) {
 			l.e.Unknown[name] = ci.Pos()
 		}
 		if res != nil {
